@@ -381,6 +381,39 @@ pub fn exec_history(ctx: &Ctx, e: &Entry, raw: u128, ops: &[Op], mode: HistMode)
             }
         }
     }
+    // writes to disjoint fields commute: the first two writes with disjoint footprints, applied in both orders
+    if !mode.rewrap_each_step {
+        let ws: Vec<(usize, usize, u128)> = ops
+            .iter()
+            .filter_map(|o| match o {
+                Op::With { f, i, v } | Op::Set { f, i, v } => Some((*f, *i, v.0)),
+                _ => None,
+            })
+            .collect();
+        'outer: for a in 0..ws.len().min(4) {
+            for b in (a + 1)..ws.len().min(6) {
+                let (fa, ia, va) = ws[a];
+                let (fb, ib, vb) = ws[b];
+                if ctx.fields[fa].foot[ia] & ctx.fields[fb].foot[ib] != 0 {
+                    continue;
+                }
+                let x0 = g("new_with_raw_value", || (e.from_raw)(raw))?;
+                let ab = g("with", || x0.with(fa, ia, va).with(fb, ib, vb))?;
+                let ba = g("with", || x0.with(fb, ib, vb).with(fa, ia, va))?;
+                let (rab, rba) = (g("raw_value", || ab.raw())?, g("raw_value", || ba.raw())?);
+                if rab != rba {
+                    return fail(
+                        "disjoint-writes-do-not-commute",
+                        format!(
+                            "raw {:#x}: {}[{}]={:#x} then {}[{}]={:#x} gives {:#x}, the other order gives {:#x}",
+                            raw, ctx.layout.fields[fa].name, ia, va, ctx.layout.fields[fb].name, ib, vb, rab, rba
+                        ),
+                    );
+                }
+                break 'outer;
+            }
+        }
+    }
     let lww = last_write_wins(ctx, raw, ops);
     let fr = g("raw_value", || x.raw())?;
     if fr != lww {
